@@ -501,6 +501,9 @@ class FitBase(FileIOMixin, object):
             self._nexus.get(_error_name).mark_for_update()
         # a pointwise cost function selected by an earlier do_fit need not be valid for the uncertainties of the new data
         self._fitter.parameter_to_minimize = self._cost_function.name
+        if self._implicit_no_errors and self._data_container.has_errors:
+            # the fit was created without uncertainties: use those of the new data like uncertainties added to the fit
+            self._on_error_change()
 
     @property
     def data_error(self):
